@@ -19,6 +19,7 @@ Trees4 == { <<0,1,2,3>>, <<0,1,2,2>>, <<0,1,1,3>> }
 F7 == { {}, {"L"}, {"U"}, {"L","U"}, {"G","L"}, {"N","U"}, {"P"} }
 F9 == { {}, {"L"}, {"U"}, {"L","U"}, {"G","L"}, {"G","U"}, {"N","U"}, {"N","L"}, {"P","U"} }
 FMod == { {}, {"L"} }
+FModQ == { {"L"} }
 VARIABLES shape, types, fl, v
 TypesOK == types[1] = "module" /\ \A i \in 2..Len(shape) : types[i] # "module"
 FlagsOK == \A i \in 1..Len(shape) : \A n \in Names :
@@ -29,11 +30,12 @@ Body(i) ==
   LET per(op, flag) == FoldLeft(LAMBDA acc, n : IF flag \in fl[i][n] THEN Append(acc, Ev(op, n, 0)) ELSE acc, <<>>, NameSeq)
       kids == FoldLeft(LAMBDA acc, c : acc \o <<Ev("child", "-", c)>> \o (IF types[c] = "function" THEN <<Ev("call", "-", c)>> ELSE <<>>), <<>>, Kids(i))
   IN per("global", "G") \o per("nonlocal", "N") \o per("bind", "L") \o kids \o per("use", "U")
-Prog == [i \in 1..Len(shape) |->
+\* (TLCEval: see SymtableAlg.WithModuleGlobals -- the program is built once, not at every P[s])
+Prog == TLCEval([i \in 1..Len(shape) |->
            [kind |-> IF i = 1 THEN "module" ELSE IF types[i] = "function" THEN "def" ELSE "class",
             parent |-> shape[i],
-            par |-> [n \in Names |-> IF "P" \in fl[i][n] THEN [k |-> "arg", from |-> "-"] ELSE NoPar],
-            iter |-> "-", tgt |-> "-", ev |-> Body(i)]]
+            par |-> TLCEval([n \in Names |-> IF "P" \in fl[i][n] THEN [k |-> "arg", from |-> "-"] ELSE NoPar]),
+            iter |-> "-", tgt |-> "-", ev |-> Body(i)]])
 Init == /\ shape \in FShapes
         /\ types \in [1..Len(shape) -> {"module", "function", "class"}] /\ TypesOK
         /\ fl \in [1..Len(shape) -> [Names -> FFlags \cup FModFlags]] /\ FlagsOK
